@@ -299,6 +299,19 @@ func denseBase(t byte, b int) *spec.Packet {
 		p := richPacket(t, false)
 		p.Reason = 0
 		return p
+	case 3:
+		// the rich packet without its largest optional section: a CONNECT
+		// without will, a PUBLISH without properties
+		p := richPacket(t, false)
+		switch t {
+		case 1:
+			p.Will = nil
+		case 3:
+			p.Props = nil
+		default:
+			return nil
+		}
+		return p
 	}
 	return minimalPacket(t)
 }
@@ -437,7 +450,7 @@ func densePacket(t byte, kind string, a []int) *spec.Packet {
 
 func describeDense(t byte, kind string, a []int) string {
 	name := gen.Schemas[t].Name
-	bases := []string{"rich", "rich/reason=0", "minimal"}
+	bases := []string{"rich", "rich/reason=0", "minimal", "rich without will/properties"}
 	switch kind {
 	case "site":
 		ss := gen.Sites(denseBase(t, a[0]))
@@ -525,12 +538,21 @@ func enumDense(x *core.Ctx, types []byte, odd bool, fn func(c *pcase)) {
 				continue
 			}
 			if b == 0 {
-				// two long fields at once (sums beyond 65 535, each far from it)
-				for s1 := 0; s1 < ns; s1++ {
-					for s2 := s1 + 1; s2 < ns; s2++ {
-						for _, nn := range [][2]int{{30000, 40000}, {40000, 30000}, {32768, 32768}, {65535, 65535}, {65535, 1}, {1, 65535}} {
-							if !emit("S5.dense.bigpair", t, "pair", b, s1, nn[0], s2, nn[1]) {
-								return
+				// two long fields at once (sums beyond 65 535, each far from it),
+				// on the rich packet and on the rich packet without its will /
+				// without its properties
+				for _, bb := range []int{0, 3} {
+					base := denseBase(t, bb)
+					if base == nil {
+						continue
+					}
+					nb := len(gen.Sites(base))
+					for s1 := 0; s1 < nb; s1++ {
+						for s2 := s1 + 1; s2 < nb; s2++ {
+							for _, nn := range [][2]int{{30000, 40000}, {40000, 30000}, {32768, 32768}, {65535, 65535}, {65535, 1}, {1, 65535}} {
+								if !emit("S5.dense.bigpair", t, "pair", bb, s1, nn[0], s2, nn[1]) {
+									return
+								}
 							}
 						}
 					}
